@@ -3,9 +3,25 @@ import json, os, re
 import tlc
 
 
-def model_check(rep, module, cfg, what, workers=16, timeout=3000, coverage=False, require_actions=()):
+def model_check(rep, module, cfg, what, workers=16, timeout=3000, coverage=False, require_actions=(), override=None):
     """P1: properties on the model.  A violation here means the *specification* is wrong: machinery failure."""
-    r = tlc.run_tlc(module, cfg=cfg, workers=workers, coverage=coverage, timeout=timeout)
+    run_cfg = cfg
+    tmp = None
+    if override:
+        text = open(os.path.join(tlc.SPEC, cfg)).read()
+        for k, v in override.items():
+            text, n = re.subn(r'^(\s*%s\s*)(=|<-).*$' % k, r'\g<1>= %s' % v, text, flags=re.M)
+            if n != 1:
+                raise tlc.MachineryError('cannot override %s in %s' % (k, cfg))
+        tmp = os.path.join(tlc.SPEC, '_p1_%d_%s' % (os.getpid(), os.path.basename(cfg)))
+        open(tmp, 'w').write(text)
+        run_cfg = os.path.basename(tmp)
+        what += ' ' + ', '.join('%s=%s' % kv for kv in override.items())
+    try:
+        r = tlc.run_tlc(module, cfg=run_cfg, workers=workers, coverage=coverage, timeout=timeout)
+    finally:
+        if tmp:
+            os.unlink(tmp)
     if r.violated:
         raise tlc.MachineryError('the model itself violates %s under %s:\n%s' % (r.violated, cfg, '\n'.join(tlc.counterexample(r.stdout))[-3000:]))
     rep.add_tlc(r, 'P1 %s (%s)' % (what, cfg))
